@@ -313,7 +313,7 @@ func checkC18(c CaseC18, x *hx.Ctx) *hx.Failure {
 var propC18 = hx.Register(hx.Prop[CaseC18]{ID: "C18", Gen: genC18, Check: checkC18})
 
 func c18Rule() {
-	hx.Rec("C18").SetRule("cases: 0..12 packets of deterministic contents (+ 0..187 extra bytes), a packet-writer mock that records a copy of every packet and fails at a drawn index with a drawn count, the four adapter constructions, and for ReadFrom the same contents through bytes.Reader, bufio.Reader, one-byte reader, half reader, data-with-EOF reader, drawn chunk sizes 1..400, and a reader that fails with its own error after k bytes; ReadFrom driven directly or through io.Copy. Oracle: the sequence of packets seen by the mock, returned count and error, per the statement. Enumerated: every (packet count 0..6, partial tail in {0,1,94,187}, reader kind, failing position) combination. Non-trivial: a fragmenting reader (not one packet per Read) or a failure position strictly inside the sequence.",
+	hx.Rec("C18").SetRule("cases: 0..12 packets of deterministic contents (+ 0..187 extra bytes), a packet-writer mock that records a copy of every packet and fails at a drawn index with a drawn count, the four adapter constructions plus two over a packet writer whose type also has its own Write method, and for ReadFrom the same contents through bytes.Reader, bufio.Reader, one-byte reader, half reader, data-with-EOF reader, drawn chunk sizes 1..400, and a reader that fails after k bytes with a plain, timeout-like, os.ErrDeadlineExceeded or io.ErrNoProgress error (followed by a second ReadFrom on the same adapter); ReadFrom driven directly or through io.Copy. Oracle: the sequence of packets seen by the mock, returned count and error, per the statement. Enumerated: every (packet count 0..6, partial tail in {0,1,94,187}, reader kind, failing position) combination. Non-trivial: a fragmenting reader (not one packet per Read) or a failure position strictly inside the sequence.",
 		"the packet-writer mock returns 188 on success (the io.Writer-style contract the adapter documents)")
 }
 
